@@ -63,6 +63,74 @@ def corpus(rng, quick):
     return out
 
 
+def repair_phase(ctx, csim, files, magic, dirs):
+    """Daemon start-up + first publication over each corpus file in each directory; what new clients
+    then read. Returns (violations, stats, evaluations, samples)."""
+    viol, samples = [], []
+    evaluations = 0
+    repair_stats = {}
+    for dname, d in dirs:
+        os.makedirs(d, exist_ok=True)
+        rpaths, rmeta = [], []
+        for name, content in files + [("absent", None), ("absent-dir/shm", None)]:
+            p = os.path.join(d, "r-" + name)
+            if content is not None:
+                with open(p, "wb") as f:
+                    f.write(content)
+                acc, cls = protocol.expected_open(content, magic)
+            else:
+                acc, cls = set(), "absent"
+            rpaths.append(p)
+            rmeta.append((name, content, acc, cls))
+        pr = run_list(ctx, csim, ["repair", "--list", "{list}"], rpaths)
+        lines = pr.stdout.splitlines()
+        if pr.returncode != 0 or len(lines) != len(rpaths):
+            rp = os.path.join(ctx.replay_dir, "C16-repair-crash-%s-%d.txt" % (dname, ctx.seed))
+            with open(rp, "w") as f:
+                f.write(pr.stdout[-3000:] + pr.stderr[-5000:])
+            viol.append({"sig": "repair-crash", "detail": "start-up/first publication run on %s exited %d after %d of %d files: %s" % (dname, pr.returncode, len(lines), len(rpaths), pr.stderr[-300:]), "replay": rp})
+            continue
+        st = {"files": 0, "taken_over": 0, "recreated": 0, "evict_asked": 0, "A_same": 0, "B_same": 0}
+        for (name, content, acc, cls), line, p in zip(rmeta, lines, rpaths):
+            evaluations += 1
+            st["files"] += 1
+            tok = line.split()
+            if tok[0] != "DONE":
+                viol.append({"sig": "startup-failed", "detail": "[%s] daemon start-up over %s failed: %s" % (dname, name, line), "replay": ""})
+                continue
+            kv = dict(t.split("=", 1) for t in tok[1:])
+            st["evict_asked"] += kv["evict"] == "asked"
+            st["A_same"] += kv["A"] == "same"
+            st["B_same"] += kv["B"] == "same"
+            was_openable = acc == {"OPENED"} or cls in ("valid-header-short-file", "huge-declared-size")
+            recreated = not was_openable
+            st["recreated" if recreated else "taken_over"] += 1
+            rec = [int(x) for x in kv["rec"].split(",")]
+            save = None
+
+            def keep():
+                rp = os.path.join(ctx.replay_dir, "C16-repair-%s-%s.bin" % (dname, name.replace("/", "_")))
+                with open(rp, "wb") as f:
+                    f.write(content or b"")
+                return rp
+            if kv["A"] != "same":
+                viol.append({"sig": "repair-live-reader-" + cls, "detail": "[%s] after start-up + first publication over %s (%s) a new client while the daemon runs: %s" % (dname, name, cls, kv["A"][:200]), "replay": keep()})
+            if kv["B"] != "same":
+                sig = "takeover-of-file-shorter-than-segment" if (was_openable and content is not None and len(content) < 72) else "repair-late-reader-" + cls
+                viol.append({"sig": sig, "detail": "[%s] after start-up + first publication over %s (%s, %d bytes), daemon gone and page cache dropped, a new client: %s" % (dname, name, cls, len(content or b""), kv["B"][:200]), "replay": keep()})
+            if recreated:
+                raw = bytes.fromhex(kv["hex"])
+                dec = protocol.decode(raw)
+                want = {"as_of": (rec[0], rec[1]), "void_after": (rec[2], rec[3]), "bound": rec[4], "max_drift": rec[5], "status": rec[6]}
+                ok = int(kv["len"]) == 72 and dec is not None and all(dec[k] == v for k, v in want.items()) and dec["size"] == 72 and dec["version"] != 0 and dec["generation"] not in (0,) and dec["generation"] % 2 == 0
+                if not ok:
+                    viol.append({"sig": "recreated-file-layout", "detail": "[%s] file re-created over %s is %s bytes and decodes to %s, expected 72 bytes holding %s" % (dname, name, kv["len"], dec, want), "replay": keep()})
+        repair_stats[dname] = st
+        if len(samples) < 5:
+            samples.append({"repair_dir": dname, "line": lines[16][:300]})
+    return viol, repair_stats, evaluations, samples
+
+
 def run_list(ctx, tool, mode_args, paths, env=None, wrap=None, timeout=900):
     lst = os.path.join(ctx.tmp, "list-%d.txt" % len(os.listdir(ctx.tmp)))
     with open(lst, "w") as f:
@@ -196,66 +264,10 @@ def run(ctx):
                 viol.append({"sig": "failed-opens-exhaust-descriptors", "detail": "opening %s 100 times in one process (descriptor limit 64): first outcome %s, last outcome %s, %s; a valid segment then: %s" % (os.path.basename(f[0]), f[1], f[2], f[3], f[4]), "replay": rp})
 
         # ---------------------------------------------------------------- repair
-        repair_stats = {}
-        for dname, d in dirs:
-            os.makedirs(d, exist_ok=True)
-            rpaths, rmeta = [], []
-            for name, content in files + [("absent", None), ("absent-dir/shm", None)]:
-                p = os.path.join(d, "r-" + name)
-                if content is not None:
-                    with open(p, "wb") as f:
-                        f.write(content)
-                    acc, cls = protocol.expected_open(content, magic)
-                else:
-                    acc, cls = set(), "absent"
-                rpaths.append(p)
-                rmeta.append((name, content, acc, cls))
-            pr = run_list(ctx, csim, ["repair", "--list", "{list}"], rpaths)
-            lines = pr.stdout.splitlines()
-            if pr.returncode != 0 or len(lines) != len(rpaths):
-                rp = os.path.join(ctx.replay_dir, "C16-repair-crash-%s-%d.txt" % (dname, ctx.seed))
-                with open(rp, "w") as f:
-                    f.write(pr.stdout[-3000:] + pr.stderr[-5000:])
-                viol.append({"sig": "repair-crash", "detail": "start-up/first publication run on %s exited %d after %d of %d files: %s" % (dname, pr.returncode, len(lines), len(rpaths), pr.stderr[-300:]), "replay": rp})
-                continue
-            st = {"files": 0, "taken_over": 0, "recreated": 0, "evict_asked": 0, "A_same": 0, "B_same": 0}
-            for (name, content, acc, cls), line, p in zip(rmeta, lines, rpaths):
-                evaluations += 1
-                st["files"] += 1
-                tok = line.split()
-                if tok[0] != "DONE":
-                    viol.append({"sig": "startup-failed", "detail": "[%s] daemon start-up over %s failed: %s" % (dname, name, line), "replay": ""})
-                    continue
-                kv = dict(t.split("=", 1) for t in tok[1:])
-                st["evict_asked"] += kv["evict"] == "asked"
-                st["A_same"] += kv["A"] == "same"
-                st["B_same"] += kv["B"] == "same"
-                was_openable = acc == {"OPENED"} or cls in ("valid-header-short-file", "huge-declared-size")
-                recreated = not was_openable
-                st["recreated" if recreated else "taken_over"] += 1
-                rec = [int(x) for x in kv["rec"].split(",")]
-                save = None
-
-                def keep():
-                    rp = os.path.join(ctx.replay_dir, "C16-repair-%s-%s.bin" % (dname, name.replace("/", "_")))
-                    with open(rp, "wb") as f:
-                        f.write(content or b"")
-                    return rp
-                if kv["A"] != "same":
-                    viol.append({"sig": "repair-live-reader-" + cls, "detail": "[%s] after start-up + first publication over %s (%s) a new client while the daemon runs: %s" % (dname, name, cls, kv["A"][:200]), "replay": keep()})
-                if kv["B"] != "same":
-                    sig = "takeover-of-file-shorter-than-segment" if (was_openable and content is not None and len(content) < 72) else "repair-late-reader-" + cls
-                    viol.append({"sig": sig, "detail": "[%s] after start-up + first publication over %s (%s, %d bytes), daemon gone and page cache dropped, a new client: %s" % (dname, name, cls, len(content or b""), kv["B"][:200]), "replay": keep()})
-                if recreated:
-                    raw = bytes.fromhex(kv["hex"])
-                    dec = protocol.decode(raw)
-                    want = {"as_of": (rec[0], rec[1]), "void_after": (rec[2], rec[3]), "bound": rec[4], "max_drift": rec[5], "status": rec[6]}
-                    ok = int(kv["len"]) == 72 and dec is not None and all(dec[k] == v for k, v in want.items()) and dec["size"] == 72 and dec["version"] != 0 and dec["generation"] not in (0,) and dec["generation"] % 2 == 0
-                    if not ok:
-                        viol.append({"sig": "recreated-file-layout", "detail": "[%s] file re-created over %s is %s bytes and decodes to %s, expected 72 bytes holding %s" % (dname, name, kv["len"], dec, want), "replay": keep()})
-            repair_stats[dname] = st
-            if len(samples) < 5:
-                samples.append({"repair_dir": dname, "line": lines[16][:300]})
+        rviol, repair_stats, revals, rsamples = repair_phase(ctx, csim, files, magic, dirs)
+        viol += rviol
+        evaluations += revals
+        samples += rsamples
     finally:
         for _, d in dirs:
             shutil.rmtree(d, ignore_errors=True)
